@@ -80,12 +80,14 @@ Insert(id, v, m) ==
      /\ Log(Rec("insert", [id |-> id, v |-> v, m |-> m]))
      /\ UNCHANGED <<npokes, rok>>
 
-\* bulk_load_cold_tier: canonical write that bypasses the mirror (mirror may go stale)
+\* bulk_load_cold_tier: canonical write that bypasses the mirror; the mirror entry of the id is evicted
+\* (before the fix of F14 it was left in place and went stale)
 BulkLoad(id, v, m) ==
   /\ canon' = [canon EXCEPT ![id] = [p |-> TRUE, v |-> v, m |-> m, ver |-> IF canon[id].p THEN canon[id].ver + 1 ELSE 1]]
   /\ l1a' = L1Remove(l1a, id)
+  /\ hot' = [hot EXCEPT ![id] = HAbsent]
   /\ Log(Rec("bulkload", [id |-> id, v |-> v, m |-> m]))
-  /\ UNCHANGED <<hot, npokes, rok, dok, sok>>
+  /\ UNCHANGED <<npokes, rok, dok, sok>>
 
 Delete(id) ==
   /\ canon' = [canon EXCEPT ![id] = CAbsent]
